@@ -40,6 +40,10 @@ def run_histories(spec, acc, configs, prof, monitors, n_hist, jobs,
                 acc.count('jobs')
                 acc.seen('job_outcomes', '%s:%s' % (rec['kind'],
                                                      rec['status']))
+                if not known_status(rec['status']):
+                    acc.count('jobs_ending_in_a_python_exception')
+                    acc.seen('python_exceptions', '%s:%s' % (
+                        rec['kind'], rec['status']))
                 for m in monitors:
                     m(world, rec, acc, ctx)
             g = Gen(world, random.Random(hseed), prof, on_job)
@@ -80,7 +84,27 @@ def replay_world(witness, acc, monitors):
         world.close()
 
 
+_known = [None]
+
+
+def known_status(status):
+    """is this job status one of Bert-E's own outcome classes?"""
+    if _known[0] is None:
+        import bert_e.exceptions as ex
+        _known[0] = {n for n in dir(ex) if isinstance(getattr(ex, n), type)}
+        _known[0] |= {'', 'NOJOB'}
+    return status in _known[0]
+
+
 def harness_health(acc, max_error_ratio=0.2):
+    crashed = acc.counters.get('jobs_ending_in_a_python_exception', 0)
+    jobs = acc.counters.get('jobs', 0)
+    if jobs and crashed > 0.15 * jobs:
+        acc.inconc('%d of %d jobs of the fault-free histories ended in a '
+                   'Python exception (%s): the workload does not exercise '
+                   'the property' % (crashed, jobs, sorted(
+                       acc.sets.get('python_exceptions', []))[:6]))
+
     errs = acc.counters.get('harness_errors', 0)
     hist = acc.counters.get('histories', 0)
     if errs and errs > max_error_ratio * max(1, hist + errs):
